@@ -9,6 +9,7 @@ CONSTANTS
   EmitOps = FALSE
   AllowNTL = TRUE
   TwoWrites = TRUE
+  AllowNil = FALSE
 INVARIANT StateInv
 PROPERTY Refines
 ACTION_CONSTRAINT Emit
